@@ -37,7 +37,7 @@ PropOf(a) == IF a.op \in ElemOps THEN <<"C01">> ELSE IF a.op \in RangeOps THEN <
              ELSE IF a.op \in CapOps THEN <<"C10">> ELSE IF a.op \in CloneOps THEN <<"C08">>
              ELSE IF a.op \in LazyOps THEN <<"C09">> ELSE <<"C14">>
 PropsOf(a, lat) ==
-  PropOf(a) \o (IF IsForget(a) THEN <<"C07">> ELSE <<>>) \o (IF lat = "panic" THEN <<"C06">> ELSE <<>>)
+  PropOf(a) \o (IF IsForget(a) THEN <<"C07">> ELSE <<>>) \o (IF lat \in {"panic", "liar"} THEN <<"C06">> ELSE <<>>)
   \o (IF Cfg.fixed THEN <<"C11">> ELSE <<>>) \o (IF ~Cfg.alloc THEN <<"C19">> ELSE <<>>)
 
 ---------------------------------------------------------------------------
@@ -252,23 +252,23 @@ Judge(stb, ev) ==
       wf   == ObsWF(stb, post)
       stOk == CASE x.lat = "exact"  -> (\A w \in Vecs : VecObsOk(x.st.v[w], post[w])) /\ post.ext = x.st.ext
                 [] x.lat = "forget" -> ForgetOk(stb, a, x, post)
-                [] x.lat = "panic"  -> PanicOk(stb, a, ev) /\ (\A w \in Vecs : post[w].hk = x.st.v[w].h.k)
+                [] x.lat \in {"panic", "liar"} -> PanicOk(stb, a, ev) /\ (\A w \in Vecs : post[w].hk = x.st.v[w].h.k)
       heldOk == x.lat # "exact" \/ (\A w \in Vecs : x.st.v[w].h.k = "tmp" =>
                    post[w].held = << <<x.st.v[w].h.held[1], x.st.v[w].h.held[2], 1>> >>)
-      resOk  == ev.res = x.res
+      resOk  == ev.res = x.res \/ (x.lat = "liar" /\ ev.res \in {"ok", "panic"})
       retOk  == x.lat # "exact" \/ ev.res # "ok" \/ ev.ret = x.ret
       (* a clone_empty probe destroys exactly what it created (fresh values and their clones) *)
       xdrops == IF a.op = "ce_probe" THEN ev.born \o [j \in 1..Len(ev.clones) |-> ev.clones[j][2]] ELSE x.drops
-      dropOk == ~Cfg.drop \/ x.lat = "panic" \/ BagEq(ev.drops, xdrops)
+      dropOk == ~Cfg.drop \/ x.lat \in {"panic", "liar"} \/ BagEq(ev.drops, xdrops)
       dropLive == DropLive(stb, ev)
-      cloneOk == ~Cfg.ids \/ x.lat = "panic" \/ a.op = "ce_probe" \/ BagEq([j \in 1..Len(ev.clones) |-> ev.clones[j][1]], x.clones)
+      cloneOk == ~Cfg.ids \/ x.lat \in {"panic", "liar"} \/ a.op = "ce_probe" \/ BagEq([j \in 1..Len(ev.clones) |-> ev.clones[j][1]], x.clones)
       hintOk == x.hint = -1 \/ (ev.hint[1] = x.hint /\ ev.hint[2] = x.hint /\ ev.hint[3] = x.hint)
       typeOk == \A j \in 1..Len(ev.note) : ev.note[j] \notin BadNotes
       ceOk == a.op # "ce_probe" \/ ~Cfg.ids \/
               Len(ev.clones) = (IF Cfg.cloneable THEN (IF stb.v[a.v].el = <<>> THEN 1 ELSE 3) ELSE 0)
       viol0 ==
            (IF ~resOk  THEN {V1(P, "result")} ELSE {})
-      \cup (IF ~stOk   THEN {V1(P, IF x.lat = "exact" THEN "elems" ELSE IF x.lat = "forget" THEN "forget_post" ELSE "panic_post")} ELSE {})
+      \cup (IF ~stOk   THEN {V1(P \o (IF x.lat = "liar" THEN <<"C06">> ELSE <<>>), IF x.lat = "exact" THEN "elems" ELSE IF x.lat = "forget" THEN "forget_post" ELSE "panic_post")} ELSE {})
       \cup (IF ~wf     THEN {V1(<<"C03">> \o P, "single_place")} ELSE {})
       \cup (IF x.lat = "exact" /\ ~stOk /\ ~BagEq(ObservedIds(post), ExpectedIds(x.st))
             THEN {V1(<<"C03">> \o P, "elements_lost_or_duplicated")} ELSE {})
@@ -286,7 +286,7 @@ Judge(stb, ev) ==
       gone == IdSet(AllElems(stb)) \cup ToSet(ev.born)
       s2 == IF diverged THEN stb
             ELSE IF x.lat = "exact" THEN AdoptCaps(x.st, post)
-            ELSE IF x.lat = "panic" THEN AdoptAfterPanic(stb, x, ev)
+            ELSE IF x.lat \in {"panic", "liar"} THEN AdoptAfterPanic(stb, x, ev)
             ELSE AdoptAll([x.st EXCEPT !.leaked = stb.leaked], post, gone \ ToSet(ev.drops))
       capv == (IF diverged THEN {} ELSE CapViol(stb, x, [ev EXCEPT !.mem = ProbeMem(a, @)])) \cup ProtoViol(ProbeMem(a, ev.mem), post.canary)
               \cup ProtoViol([j \in 1..Len(ev.mem) |-> IF ev.mem[j][1] \in {1, 2, 3} THEN <<0, 0, 0, 0, 0, 0>> ELSE ev.mem[j]], post.canary)
